@@ -1,4 +1,4 @@
-// Repro for the finding 'a captured frame does not carry the traceparent' (pinned by specs/traceparent_frame_carry.vx, candidate repair findings/fix_traceparent_frame_carry.diff).
+// Repro for the finding 'a captured frame does not carry the traceparent' (F28, fixed in /repo ccac777; contract: open_post + lemma_open_carries in specs/traceparent_step.vx; repair findings/fix_traceparent_frame_carry.diff).
 // Copy to <worktree>/traceparent/tests/ and run: cargo test -p emit_traceparent --test repro_traceparent_frame_carry
 // Unchanged tree: FAILS (SpanCtxt::current on the other thread is empty). With the repair: passes.
 // Source: independent reviewers' round-5 side finding (C04-out/found/c04_found_traceparent.rs); see also C18-out/found (sampler runs a 2nd time inside an unsampled trace).
